@@ -485,7 +485,8 @@ def mixed_rep_cases(rng, n):
         d1 = {"lob": rng.choice(["auto", "home"]), "n": 7, "state": "NY", "flag": True}
         keys = rng.sample(list(d1), rng.randint(2, 4))
         a = {k: d1[k] for k in keys}
-        b = {k: (7.0 if (k == "n" and rng.random() < 0.5) else a[k]) for k in reversed(keys)}
+        b = {k: (7.0 if (k == "n" and rng.random() < 0.5) else 1 if (k == "flag" and rng.random() < 0.5) else a[k])
+             for k in reversed(keys)}
         la = {"cov": "x", "layer": 2}
         lb = {"layer": 2 if rng.random() < 0.5 else 2.0, "cov": "x"}
         use_l = rng.random() < 0.5
@@ -552,6 +553,197 @@ def battery():
     return out
 
 
+def hardening_cases():
+    """small directed streams for the input families of notes/HARDENING.md (B, C, D, E, F, G, I, J); family A is
+    mixed_rep_cases, H / K (method vs function, edited results) run centrally in factory_common + hardening_checks"""
+    import pandas as pd
+
+    from bermuda import Cell, CumulativeCell, IncrementalCell, Metadata, Triangle
+
+    def cum(ps, pe, ev, vals, m=None, cls=CumulativeCell):
+        return cls(period_start=ps, period_end=pe, evaluation_date=ev, values=vals, metadata=m)
+
+    def yr(y, lag, vals, m=None, cls=CumulativeCell):
+        return cum(D(y, 1, 1), D(y, 12, 31), D(y + lag, 12, 31), vals, m, cls)
+
+    out = []
+    # B: distinct metadata that flatten alike -- same key/value in details vs loss_details, a detail named like an
+    #    attribute, slices differing only in loss_details; every slice with the same coordinates
+    ms = [Metadata(details={"k": "v"}), Metadata(loss_details={"k": "v"}), Metadata(details={"currency": "USD"}),
+          Metadata(currency="USD"), Metadata(details={"k": "v"}, loss_details={"k": "v"}),
+          Metadata(loss_details={"k": "w"}), Metadata(details={"country": "US", "risk_basis": "Policy"})]
+    out.append((Triangle([yr(2020, lag, {"paid_loss": 10 * i + lag}, m) for i, m in enumerate(ms) for lag in (0, 1)]),
+                {"family": "B"}, "hardening/B-flatten-alike"))
+    # B: None vs "" vs missing (the sort key treats None as ""): oracle only, the slices interleave
+    out.append((Triangle([yr(2019 + i, 0, {"a": i}, m) for i, m in enumerate(
+        [Metadata(country=None), Metadata(country=""), Metadata(country=None, currency=""), Metadata(risk_basis=""),
+         Metadata(risk_basis=None)])]), {"family": "B", "oracle_only": True}, "hardening/B-none-vs-empty"))
+    # C: calendar corners in the ISO text
+    days = [D(1900, 2, 28), D(1900, 3, 1), D(1969, 12, 31), D(1970, 1, 1), D(2000, 2, 29), D(2000, 3, 1), D(2024, 2, 29),
+            D(2100, 2, 28), D(2100, 3, 1), D(2023, 4, 30), D(2023, 5, 1), D(2023, 12, 30), D(2250, 12, 31), D(1000, 1, 1)]
+    out.append((Triangle([cum(d, d, d + datetime.timedelta(days=k), {"a": k}) for d in days for k in (0, 1, 59)]),
+                {"family": "C"}, "hardening/C-calendar"))
+    out.append((Triangle([IncrementalCell(period_start=d, period_end=d + datetime.timedelta(days=30),
+                                          evaluation_date=d + datetime.timedelta(days=31), prev_evaluation_date=d,
+                                          values={"a": 1.5}) for d in days]), {"family": "C", "basis": "inc"},
+                "hardening/C-calendar-inc"))
+    # D: coordinates given as datetime / Timestamp / a datetime subclass with a non-midnight time
+    class MyDT(datetime.datetime):
+        pass
+
+    dt = datetime.datetime
+    out.append((Triangle([cum(dt(2020, 1, 1, 13, 5), pd.Timestamp("2020-12-31 23:59:59"), MyDT(2021, 12, 31, 7, 0), {"a": 1}),
+                          cum(MyDT(2021, 1, 1, 1), dt(2021, 12, 31, 23), pd.Timestamp("2021-12-31 12:00"), {"a": 2.5})]),
+                {"family": "D"}, "hardening/D-datetime-coordinates"))
+    out.append((Triangle([cum(MyDT(2021, 1, 1, 1), dt(2021, 12, 31, 23), pd.Timestamp("2021-12-31 12:00"), {"a": 2.5}, cls=Cell)]),
+                {"family": "D"}, "hardening/D-datetime-coordinates-Cell"))
+    out.append((Triangle([IncrementalCell(period_start=dt(2020, 1, 1, 1), period_end=MyDT(2020, 12, 31, 2),
+                                          evaluation_date=pd.Timestamp("2021-12-31 03:00"), prev_evaluation_date=dt(2020, 12, 31, 4),
+                                          values={"a": 1})]), {"family": "D", "basis": "inc"}, "hardening/D-datetime-inc"))
+    # E: falsy but valid values everywhere
+    me = Metadata(risk_basis="", country="", currency="", reinsurance_basis="", loss_definition="", per_occurrence_limit=0,
+                  details={"e": "", "f": 0, "g": False, "h": 0.0, "i": None}, loss_details={"": 0})
+    me2 = Metadata(per_occurrence_limit=0.0, details={"": ""})
+    out.append((Triangle([yr(2020, 0, {"a": 0, "b": 0.0, "c": False, "d": None, "": 0, "z": np.zeros(2), "zi": np.zeros(2, dtype=np.int64)}, me),
+                          yr(2020, 1, {}, me), yr(2020, 0, {"a": 0.0}, me2)]), {"family": "E"}, "hardening/E-falsy"))
+    # F: degenerate shapes
+    out.append((Triangle([]), {"family": "F"}, "hardening/F-empty"))
+    out.append((Triangle([yr(2020, 0, {"a": 1})]), {"family": "F"}, "hardening/F-one-cell"))
+    out.append((Triangle([yr(2020, 0, {"a": None}), yr(2020, 1, {"a": None, "late": 3}), yr(2020, 2, {"late": np.array([1.0, 2.0])}),
+                          yr(2021, 0, {"s": np.array([1, 2], dtype=np.int64)}), yr(2021, 1, {"x": 5})]),
+                {"family": "F"}, "hardening/F-late-fields"))
+    # G: size-1 and strided 1-d arrays (int64 / float64 stay in the property's domain)
+    base = np.arange(12, dtype=np.int64)
+    out.append((Triangle([yr(2020, 0, {"one_i": np.array([5], dtype=np.int64), "one_f": np.array([2.5]), "strided": base[::3],
+                                       "rev": base[::-4].astype(np.float64)[::1], "big": np.array([2**62, -2**63], dtype=np.int64)})]),
+                {"family": "G"}, "hardening/G-array-shapes"))
+    # I: restated cells (same coordinates twice, different values; accepted with a warning)
+    with warnings.catch_warnings():
+        warnings.simplefilter("ignore")
+        out.append((Triangle([yr(2020, 0, {"a": 1}), yr(2020, 0, {"a": 2}), yr(2020, 0, {"b": 1.5}), yr(2020, 1, {"a": 3})]),
+                    {"family": "I"}, "hardening/I-restated"))
+    # J: sub-monthly, nested and overlapping periods, periods sharing a start or an end
+    ps = [(D(2020, 1, 1), D(2020, 1, 15)), (D(2020, 1, 16), D(2020, 1, 31)), (D(2020, 1, 1), D(2020, 1, 31)),
+          (D(2020, 1, 1), D(2020, 12, 31)), (D(2020, 1, 10), D(2020, 2, 20)), (D(2019, 7, 1), D(2020, 1, 31))]
+    out.append((Triangle([cum(a, b, D(2020, 12, 31) + datetime.timedelta(days=k), {"a": i + k}) for i, (a, b) in enumerate(ps)
+                          for k in (0, 31)]), {"family": "J"}, "hardening/J-period-layouts"))
+    return out
+
+
+def hardening_checks(ctx, tmpdir):
+    """K (argument spellings, non-default date_format, deprecated aliases), H (same call twice / rewritten path),
+    L (refusals both ways), E (falsy file argument) -- judged on the real entry points; each failure is a violation"""
+    import bermuda.io.json as bj
+    from bermuda import Triangle
+
+    t = battery()[42][0]          # CumulativeCell, every metadata attribute set, every value kind
+    assert type(t.cells[0]).__name__ == "CumulativeCell"
+    want = canon_retag(t, ordered=True)
+    text = t.to_json()
+    tree = json.loads(text)
+    fails = []
+
+    def same(label, thunk, want=want, ordered=True):
+        try:
+            with warnings.catch_warnings():
+                warnings.simplefilter("ignore")
+                got = thunk()
+            if canon_tri(got, ordered=ordered) != want:
+                fails.append((label, "cells differ"))
+        except Exception as ex:  # noqa: BLE001
+            fails.append((label, f"raised {type(ex).__name__}: {ex}"[:200]))
+
+    # K: non-default date format written by a plain serialiser, positional and keyword, every reader taking it
+    def refmt(x, fmt):
+        if isinstance(x, dict):
+            return {k: (datetime.date.fromisoformat(v).strftime(fmt) if k.endswith(("_start", "_end", "_date")) else refmt(v, fmt))
+                    for k, v in x.items()}
+        return [refmt(y, fmt) for y in x] if isinstance(x, list) else x
+
+    for fmt in ("%d.%m.%Y", "%Y%m%d", "%m/%d/%y", "%Y-%m-%d"):
+        s2 = json.dumps(refmt(tree, fmt))
+        same(f"json_string_to_triangle(s, {fmt!r})", lambda: bj.json_string_to_triangle(s2, fmt))
+        same(f"json_string_to_triangle(string=, date_format={fmt!r})", lambda: bj.json_string_to_triangle(string=s2, date_format=fmt))
+        same(f"from_json(handle, {fmt!r})", lambda: Triangle.from_json(io.StringIO(s2), fmt))
+        p = os.path.join(tmpdir, "fmt.json")
+        open(p, "w").write(s2)
+        same(f"from_json(file_or_fname=path, date_format={fmt!r})", lambda: Triangle.from_json(file_or_fname=p, date_format=fmt))
+    same("triangle_json_loads (deprecated alias)", lambda: bj.triangle_json_loads(text))
+    same("triangle_json_load (deprecated alias)", lambda: bj.triangle_json_load(io.StringIO(text)))
+    same("json_to_triangle / dict_to_triangle function forms", lambda: bj.dict_to_triangle(bj.triangle_to_dict(t)))
+    # K / E: writer spellings; a falsy file argument means "return the string"
+    p = os.path.join(tmpdir, "kw.json")
+    if bj.triangle_to_json(t, file_or_fname=p) is not None or open(p).read() != text:
+        fails.append(("triangle_to_json(t, file_or_fname=path)", "text differs / return value"))
+    if t.to_json(None) != text or t.to_json(file_or_fname=None) != text or bj.triangle_to_json(tri=t) != text:
+        fails.append(("to_json(None) / keyword forms", "text differs"))
+    # H: the same call twice; a path rewritten with a shorter triangle and with raw text, then loaded again
+    if t.to_json() != text or t.to_dict() != tree or t.to_dict() is t.to_dict():
+        fails.append(("to_json / to_dict called twice", "results differ or are shared"))
+    d1 = t.to_dict()
+    d1["slices"][0]["cells"][0]["values"].clear()
+    d1["slices"].append({"cells": []})
+    if t.to_dict() != tree or json.loads(t.to_json()) != tree:
+        fails.append(("to_dict after the caller edited an earlier result", "export changed"))
+    small = Triangle(t.cells[:1])
+    t.to_json(p)
+    small.to_json(p)
+    same("path rewritten with a shorter triangle", lambda: Triangle.from_json(p), canon_retag(small, ordered=True))
+    open(p, "w").write(json.dumps(shuffle_tree(tree, random.Random(5)), indent=3))
+    same("path rewritten as indented, shuffled plain JSON", lambda: Triangle.from_json(p), canon_retag(t, ordered=False), False)
+    with open(p, "rb") as fb:            # a binary handle is a file handle too
+        same("from_json(binary handle)", lambda: Triangle.from_json(fb), canon_retag(t, ordered=False), False)
+    # L: refusals both ways
+    cell0 = tree["slices"][0]["cells"][0]
+
+    def variant(**edit):
+        c = {k: v for k, v in cell0.items() if edit.get(k, 0) is not None}
+        c.update({k: v for k, v in edit.items() if v is not None})
+        return json.dumps({"slices": [{"cells": [c]}]})
+
+    refusals = [("cell without evaluation_date", variant(evaluation_date=None), KeyError),
+                ("period_end before period_start", variant(period_end="1999-01-01"), ValueError),
+                ("evaluation_date before period_start", variant(evaluation_date="1999-01-01"), ValueError),
+                ("not a date", variant(period_start="2020-13-01"), ValueError),
+                ("date in another format", variant(period_start="01.01.2020"), ValueError),
+                ("prev_evaluation_date not before evaluation_date", variant(prev_evaluation_date=cell0["evaluation_date"]), ValueError),
+                ("cumulative and incremental cells mixed", json.dumps({"slices": [{"cells": [
+                    cell0, dict(cell0, prev_evaluation_date=cell0["period_start"], evaluation_date="2030-01-01")]}]}), Exception),
+                ("a string field value", variant(values={"a": "x"}), TypeError),
+                ("metadata attribute of the wrong type", json.dumps({"slices": [{"country": 5, "cells": [cell0]}]}), TypeError)]
+    for label, s3, exc in refusals:
+        for rn, r in readers(tmpdir).items():
+            try:
+                with warnings.catch_warnings():
+                    warnings.simplefilter("ignore")
+                    r(s3)
+                fails.append((f"refusal: {label} via {rn}", "accepted"))
+            except exc:
+                pass
+            except Exception as ex:  # noqa: BLE001
+                fails.append((f"refusal: {label} via {rn}", f"raised {type(ex).__name__} instead of {exc.__name__}"))
+    ps_ = cell0["period_start"]
+    near = [("evaluation_date == period_start == period_end", variant(period_end=ps_, evaluation_date=ps_)),
+            ("prev_evaluation_date one day before evaluation_date",
+             variant(prev_evaluation_date=(datetime.date.fromisoformat(cell0["evaluation_date"]) - datetime.timedelta(days=1)).isoformat())),
+            ("empty values", variant(values={})), ("no slices", json.dumps({"slices": []})),
+            ("a slice without cells", json.dumps({"slices": [{"country": "US", "cells": []}]}))]
+    for label, s3 in near:
+        for rn, r in readers(tmpdir).items():
+            try:
+                with warnings.catch_warnings():
+                    warnings.simplefilter("ignore")
+                    r(s3)
+            except Exception as ex:  # noqa: BLE001
+                fails.append((f"valid input refused: {label} via {rn}", f"{type(ex).__name__}: {ex}"[:200]))
+    ctx.count(evaluations=16 + 7 + 9 * 4 + 5 * 4)
+    ctx.hist("hardening:K/H/L/E entry-point checks", 16 + 7 + 9 * 4 + 5 * 4)
+    for label, why in fails[:5]:
+        ctx.violation("impl-violation", f"JSON entry point check fails: {label}: {why}",
+                      {"triangle": tri_spec(t), "entry_point_check": label, "failure": why}, found_input=True)
+    return fails
+
+
 def extra_oracle_cases(rng):
     """values outside the dyadic Coq representation: oracle only"""
     from bermuda import CumulativeCell, Metadata, Triangle
@@ -589,6 +781,9 @@ def correspondence(ctx, cases, layout_name):
         L = [HEADER.format(layout=layout_name)]
         idx = []
         for ci, (t, info, desc) in enumerate(chunk):
+            if info.get("oracle_only"):
+                ctx.hist("corr:oracle-only")
+                continue
             try:
                 with warnings.catch_warnings():
                     warnings.simplefilter("ignore")
@@ -770,7 +965,7 @@ def run(ctx):
         ctx.log("proof files done; generating cases")
         # 3. cases
         n_gen = 170 if ctx.quick else 1500
-        cases = battery() + mixed_rep_cases(random.Random(ctx.seed * 13 + 1), 24 if ctx.quick else 150) + gen_cases(ctx, n_gen)
+        cases = battery() + hardening_cases() + mixed_rep_cases(random.Random(ctx.seed * 13 + 1), 24 if ctx.quick else 150) + gen_cases(ctx, n_gen)
         for t, info, desc in cases:
             ctx.hist("case:" + desc.split("/")[0] + "/" + str(info.get("basis", info.get("cls", ""))))
             ctx.hist(f"slices:{len(t.slices)}")
@@ -812,6 +1007,8 @@ def run(ctx):
                           {"mismatches": mism[:5]}, found_input=False)
         # 6. probes
         probes(ctx, tmpdir)
+        hfails = hardening_checks(ctx, tmpdir)
+        ctx.log(f"entry-point hardening checks: {len(hfails)} failures")
     finally:
         shutil.rmtree(tmpdir, ignore_errors=True)
 
